@@ -40,7 +40,8 @@ Pick(n) == IF Enumerate THEN Classes
            ELSE {Weighted[RandomElement(1..(Len(Weighted) + 0 * n))]}   \* depends on the state: evaluated at every step
 
 SimNext ==
-  \E r \in Recs :
+  /\ UNCHANGED nops
+  /\ \E r \in Recs :
     IF Len(hist) < MaxOps - 1
     THEN \E c \in Pick(Len(hist)) :
            \/ c = "describe" /\ SDescribe(r)
@@ -62,9 +63,10 @@ MOf(e) == <<e.k, e.n, e.l>>
 
 ExpFromHist(h0, r) ==
   LET h == SelectSeq(h0, LAMBDA e : e.r = r)
-      RegIdx(m)  == IdxOf(h, LAMBDA e : e.ev = "register" /\ MOf(e) = m)
-      everReg    == {m \in Metric : RegIdx(m) # {}}
-      order      == SetToSortSeq(everReg, LAMBDA a, b : Min(RegIdx(a)) < Min(RegIdx(b)))
+      regs       == {i \in DOMAIN h : h[i].ev = "register"}
+      everReg    == {MOf(h[i]) : i \in regs}
+      first      == [m \in everReg |-> Min({i \in regs : MOf(h[i]) = m})]
+      order      == SetToSortSeq(everReg, LAMBDA a, b : first[a] < first[b])
       lastSnap   == Max({0} \cup IdxOf(h, LAMBDA e : e.ev = "snapshot"))
       Given(kn)  == IdxOf(h, LAMBDA e : e.ev = "describe" /\ <<e.k, e.n>> = kn /\ e.u # 0)
       Descr(kn)  == IdxOf(h, LAMBDA e : e.ev = "describe" /\ <<e.k, e.n>> = kn)
@@ -80,7 +82,10 @@ ExpFromHist(h0, r) ==
           v |-> IF KindOf(m) = "h" THEN 0 ELSE val(m),
           hv |-> IF KindOf(m) = "h" THEN recs(m) ELSE EmptyBag ]]
 
-\* in every state the snapshot that would be taken is the one the history calls for
-\* (for the state right after a snapshot call: the histograms start empty again)
-HistoryExact == \A r \in Recs : SnapOf(st[r]) = ExpFromHist(hist, r)
+\* every snapshot call returned what the calls before it ask for.  (Evaluated at snapshot steps only:
+\* the simulator evaluates invariants on all successors of every step.)
+HistoryExact ==
+  LET n == Len(hist) IN
+  (n > 0 /\ hist[n].ev = "snapshot") =>
+     hist[n].snap = SnapJson(ExpFromHist(SubSeq(hist, 1, n - 1), hist[n].r))
 =============================================================================
